@@ -28,6 +28,9 @@ SPECTRA = {
     "deg-inside": ([0.0, 0.0], [3.0, 3.0, 12.0]),
     "complex": ([0.5 + 1j, 1.0], [3.0 - 2j, 7.0, 12.0 + 1j]),
     "negative": ([-4.0, 1.5], [-1.0, 0.25, 100.0]),
+    # coincide within atol without being bit-identical (eigensolver noise)
+    "near-deg": ([0.3, 0.1 + 0.2], [3.0, 3.0000000000000004, 12.0]),
+    "near-deg-atol": ([0.5, 0.5 + 1e-8], [3.0, 3.0 - 1e-9, 12.0]),
 }
 
 
@@ -37,6 +40,8 @@ def cases(tier, seed):
     for spec in SPECTRA:
         for rhs in ("dense", "csr", "csr-structural-zeros", "sympy", "dense-real"):
             for idx in ((0, 1), (1, 0), (0, 0), (1, 1)):
+                if spec.startswith("near-deg") and (rhs == "sympy" or idx[0] != idx[1]):
+                    continue  # floats only; across blocks a shared level is rejected
                 out.append(dict(solver="diagonal", spectrum=spec, rhs=rhs, index=list(idx), seed=seed))
     for rhs in ("dense", "csr", "sympy"):
         for idx in ((0, 1), (1, 0), (1, 1)):
@@ -110,7 +115,7 @@ def run_diagonal(case):
 
     rng = np.random.default_rng([case["seed"], 8])
     spec = case["spectrum"]
-    atol = 1e-12
+    atol = 1e-6 if spec == "near-deg-atol" else 1e-12
     if spec == "scalar-zero":
         eigsA, eigsB = np.array(0), np.array([3.0, 7.0, 12.0])
         shapeA = 2
